@@ -123,6 +123,7 @@ func New(
 	s.t.ControlCharacterCallback = func(key rune) {
 		switch key {
 		case 0x0F: /* ^O, silence output for a bit. */
+			verifPause("ctrl-o")
 			s.wL.Lock()
 			defer s.wL.Unlock()
 			/* Don't double-pause. */
